@@ -27,6 +27,7 @@ RULE = (
     "Non-trivial = the input gets past the parser (reaches the compile handlers): classes a, c, d and those of b that "
     "still parse; distinct by content hash. The CLI stage runs python -m explorerscript.cli.compile on a sample of class "
     "(c)/(b) inputs: non-zero exit and non-empty stderr."
+    ' Macro call cycles have 1-4 members, in a third of the cases 5-94.'
 )
 ASSUMPTIONS = [
     "documented exception types: explorerscript.error.ParseError, SsbCompilerError, builtin ValueError (docstring of compile())",
